@@ -1,5 +1,6 @@
-"""Fail-closed translator of the bodies of seven DiHypergraph mutators - add_node, add_node_to_edge, remove_edge,
-remove_edges_from, remove_node_from_edge, clear, add_edge (xgi/core/dihypergraph.py) - into programs of the statement language of
+"""Fail-closed translator of the bodies of eight DiHypergraph mutators - add_node, add_node_to_edge, remove_edge,
+remove_edges_from, remove_node_from_edge, clear, add_edge, remove_node - and of the items of the bulk calls (add_edges_from in all
+five formats, remove_nodes_from) (xgi/core/dihypergraph.py) - into programs of the statement language of
 coq/Model/PyIRD.v (coq/Gen/DiMutators.v).  `Props/C02.v` proves that running the regenerated programs on a state satisfying
 the class invariant is exactly what the hand-written two-sided model does.
 
@@ -190,6 +191,25 @@ class M:
                 self.sides = None
                 out.append(f"(DBindDir {' '.join(p[1])} {rest})")
                 return "[" + "; ".join(out) + "]"
+            # x = self._node[<v>]  followed by  del self._node[<v>]: a reference to the pair of sets, unreachable from the
+            # tables afterwards (so nothing in its scope can change them)
+            if isinstance(st, ast.Assign) and len(st.targets) == 1 and isinstance(st.targets[0], ast.Name) and self.local is None:
+                s_ = self.sub(st.value, {"_node": "TNode"})
+                if s_ and i + 1 < len(stmts) and ast.unparse(stmts[i + 1]) == f"del {ast.unparse(st.value)}":
+                    self.local = st.targets[0].id
+                    rest = self.block(stmts[i + 1:])
+                    self.local = None
+                    out.append(f"(DBindNodeRef {s_[1]} {rest})")
+                    return "[" + "; ".join(out) + "]"
+            # x = self._edge[<v>]  followed by  del self._edge[<v>]: the same for an edge; a snapshot is the same thing
+            if isinstance(st, ast.Assign) and len(st.targets) == 1 and isinstance(st.targets[0], ast.Name):
+                s_ = self.sub(st.value, {"_edge": "TEdge"})
+                if s_ and i + 1 < len(stmts) and ast.unparse(stmts[i + 1]) == f"del {ast.unparse(st.value)}":
+                    saved, self.local = self.local, st.targets[0].id
+                    rest = self.block(stmts[i + 1:])
+                    self.local = saved
+                    out.append(f"(DBindEdgeCopy {s_[1]} {rest})")
+                    return "[" + "; ".join(out) + "]"
             # edge = self._edge[<v>].copy()
             if isinstance(st, ast.Assign) and len(st.targets) == 1 and isinstance(st.targets[0], ast.Name) and self.local is None \
                     and isinstance(st.value, ast.Call) and isinstance(st.value.func, ast.Attribute) and st.value.func.attr == "copy" \
@@ -268,6 +288,23 @@ class M:
                 body = self.block(st.body)
                 self.loops.pop(0)
                 return f"(DForIds {body})"
+            loc = lambda x: isinstance(x, ast.Subscript) and isinstance(x.value, ast.Name) and x.value.id == self.local \
+                and isinstance(x.slice, ast.Constant) and x.slice.value in ("in", "out")
+            # x["in"].union(x["out"])
+            if isinstance(it, ast.Call) and isinstance(it.func, ast.Attribute) and it.func.attr == "union" and len(it.args) == 1 \
+                    and loc(it.func.value) and loc(it.args[0]) and it.func.value.slice.value == "in" and it.args[0].slice.value == "out":
+                self.loops.insert(0, st.target.id)
+                body = self.block(st.body)
+                self.loops.pop(0)
+                return f"(DForLocalUnion {body})"
+            # x[sd].difference({<v>})
+            if isinstance(it, ast.Call) and isinstance(it.func, ast.Attribute) and it.func.attr == "difference" and len(it.args) == 1 \
+                    and loc(it.func.value) and isinstance(it.args[0], ast.Set) and len(it.args[0].elts) == 1:
+                minus = self.v(it.args[0].elts[0])
+                self.loops.insert(0, st.target.id)
+                body = self.block(st.body)
+                self.loops.pop(0)
+                return f"(DForLocalMinus {'SdIn' if it.func.value.slice.value == 'in' else 'SdOut'} {minus} {body})"
             if isinstance(it, ast.Subscript) and isinstance(it.value, ast.Name) and it.value.id == self.local \
                     and isinstance(it.slice, ast.Constant) and it.slice.value in ("in", "out"):
                 self.loops.insert(0, st.target.id)
@@ -283,7 +320,8 @@ SPEC = [("dsrc_add_node", "add_node", ["node"], [], None, None),
         ("dsrc_remove_edge", "remove_edge", ["idx"], [], None, None),
         ("dsrc_remove_edges_from", "remove_edges_from", [], [], "ebunch", None),
         ("dsrc_remove_node_from_edge", "remove_node_from_edge", ["edge", "node"], ["remove_empty"], None, "direction"),
-        ("dsrc_clear", "clear", [], ["remove_net_attr"], None, None)]
+        ("dsrc_clear", "clear", [], ["remove_net_attr"], None, None),
+        ("dsrc_remove_node", "remove_node", ["n"], ["strong", "remove_empty"], None, None)]
 
 
 def translate():
@@ -300,7 +338,8 @@ def translate():
         kw = fns[0].args.kwarg.arg if fns[0].args.kwarg else None
         body = [s for s in fns[0].body if not (isinstance(s, ast.Expr) and isinstance(s.value, ast.Constant))]
         out.append(f"Definition {coqname} : list dstmt :=\n  {M(labels, flags, kw, ids, direction).block(body)}.\n")
-    return out + translate_add_edge(cls[0]) + translate_add_edges_from_items(cls[0]) + translate_add_edges_from_dict(cls[0])
+    return out + translate_add_edge(cls[0]) + translate_add_edges_from_items(cls[0]) + translate_add_edges_from_dict(cls[0]) \
+        + translate_remove_nodes_from(cls[0])
 
 
 FORMAT_DISPATCH = {
@@ -381,6 +420,25 @@ def translate_add_edges_from_items(cls):
             f"Definition dsrc_bulk_item : list dstmt :=\n  {m.block(rest)}.\n"]
 
 
+def translate_remove_nodes_from(cls):
+    """remove_nodes_from(self, nodes, strong=False, remove_empty=True): for n in nodes: <guards>; self.remove_node(n, ...)"""
+    fns = [n for n in cls.body if isinstance(n, ast.FunctionDef) and n.name == "remove_nodes_from"]
+    if len(fns) != 1 or [a.arg for a in fns[0].args.args] != ["self", "nodes", "strong", "remove_empty"]:
+        raise TranslationError("DiHypergraph.remove_nodes_from not found or unexpected parameters")
+    body = [s for s in fns[0].body if not (isinstance(s, ast.Expr) and isinstance(s.value, ast.Constant))]
+    if not (len(body) == 1 and isinstance(body[0], ast.For) and isinstance(body[0].target, ast.Name) and ast.unparse(body[0].iter) == "nodes"
+            and not body[0].orelse):
+        raise TranslationError("DiHypergraph.remove_nodes_from: expected one loop over `nodes`")
+    var = body[0].target.id
+    m = M([], ["strong", "remove_empty"], None)
+    m.item_mode = True
+    m.loops = [var]
+    gs, rest = m.guards(body[0].body)
+    if len(rest) != 1 or ast.unparse(rest[0]) != f"self.remove_node({var}, strong=strong, remove_empty=remove_empty)":
+        raise TranslationError("DiHypergraph.remove_nodes_from: expected the call of remove_node with the same options")
+    return [f"Definition dsrc_remove_nodes_from_guards : list (dbexp * guard_action) :=\n  [{'; '.join(gs)}].\n"]
+
+
 def translate_add_edge(cls):
     """add_edge(self, members, idx=None, **attr): the decoding of `members`, guards, the uid binding, guards, statements"""
     fns = [n for n in cls.body if isinstance(n, ast.FunctionDef) and n.name == "add_edge"]
@@ -410,7 +468,7 @@ def regenerate():
     defs = translate()
     os.makedirs(GEN, exist_ok=True)
     text = ("(* GENERATED by harness/translate_dimutators.py from xgi/core/dihypergraph.py (add_node, add_node_to_edge, remove_edge, "
-            "remove_edges_from, remove_node_from_edge, clear, add_edge) - do not edit. *)\n"
+            "remove_edges_from, remove_node_from_edge, clear, add_edge, remove_node, the items of add_edges_from and remove_nodes_from) - do not edit. *)\n"
             "From Coq Require Import List.\nFrom XV Require Import Base.Outcome Model.PyIR Model.PyIRD.\nImport ListNotations.\n\n" + "\n".join(defs))
     p = os.path.join(GEN, "DiMutators.v")
     if not os.path.exists(p) or open(p).read() != text:
